@@ -2,9 +2,31 @@
   Edn.Proofs.FlagIndep — C18: feature flags only add syntax.  A document that the core
   configuration accepts and that contains none of the byte patterns the extensions claim
   for themselves reads to the same value under every combination of the flags.
+
+  Proof layout: `FlagIndepAux0` (shared definitions), `FlagIndepAux1` (numbers),
+  `FlagIndepAux2` (trigger patterns, dispatch table, string decoding, leaf readers),
+  `FlagIndepAux3` (equality / duplicate check up to cache cells), `FlagIndepAux4`
+  (accumulators, `#:`), `FlagIndepAux5` (the simulation, by induction on the fuel).
+
+  STATEMENT CHANGE (`NoTriggers`, one conjunct added).  As first written (four conjuncts)
+  `readValue_flag_independent` and `read_flag_independent` are false: the hypothesis
+  `coreStrings v` speaks about the strings of the *result*, but a discarded form `#_ form`
+  is read, checked for duplicates and dropped, so its strings are not covered.  Two string
+  literals that the core configuration cannot decode (and therefore compares by their raw
+  text) may decode to the same bytes with the Clojure flag:
+
+      #eval read ⟨false,false⟩ {} "#_ #{\"\\f\" \"\\u000c\"} 1".toUTF8.toList   -- value (int 1)
+      #eval read ⟨true,false⟩  {} "#_ #{\"\\f\" \"\\u000c\"} 1".toUTF8.toList   -- error DUPLICATE_ELEMENT 3..19
+      (also ⟨true,true⟩; the same with `"\7"` and `"\07"`)
+
+  The input has none of the four original patterns and the result `1` contains no string.
+  Repair: the fifth conjunct of `NoTriggers` — the input has no discard marker `#_`, *or* no
+  backslash in it is followed by one of the extension escape letters `f b u 0..7` (`NoExt`;
+  then every string literal, discarded or not, decodes identically in all configurations).
 -/
 import Edn.Proofs.Fuel
 import Edn.Proofs.ReaderInv
+import Edn.Proofs.FlagIndepAux5
 
 namespace Edn.Proofs
 open Edn.Model
@@ -15,17 +37,23 @@ open Edn.Model
     backslash directly followed by a form feed or backspace byte (rejected as a character
     literal by the Clojure flag).  Every other extension syntax (`#:`, `0x`, leading zeros,
     `NrD`, `/` or `_` in numbers, `\formfeed`, `\oNNN`, long `\u` escapes) is *rejected* by the
-    core configuration, so "the core configuration accepts the document" already excludes it. -/
-def NoTriggers (s : Bytes) : Prop :=
-  0x5E ∉ s ∧ ¬ [0x22, 0x22, 0x22, 0x0A] <:+: s ∧ ¬ [0x5C, 0x0C] <:+: s ∧ ¬ [0x5C, 0x08] <:+: s
+    core configuration, so "the core configuration accepts the document" already excludes it.
 
-theorem NoTriggers.suffix {s t : Bytes} (h : NoTriggers s) (hs : t <:+ s) : NoTriggers t := by
-  sorry
+    Fifth conjunct (added, see the header): string escapes are decoded lazily, so the core
+    configuration accepts `"\f"` etc. inside a form that `#_` discards; such a document must
+    not combine a discard marker with an extension escape pattern (`NoExt s`: no backslash
+    is followed by `f`, `b`, `u` or an octal digit, `extEscape`). -/
+def NoTriggers (s : Bytes) : Prop :=
+  0x5E ∉ s ∧ ¬ [0x22, 0x22, 0x22, 0x0A] <:+: s ∧ ¬ [0x5C, 0x0C] <:+: s ∧ ¬ [0x5C, 0x08] <:+: s ∧
+  (¬ [0x23, 0x5F] <:+: s ∨ NoExt s)
+
+theorem NoTriggers.suffix {s t : Bytes} (h : NoTriggers s) (hs : t <:+ s) : NoTriggers t :=
+  NoTrig.suffix h hs
 
 /-- numbers: whatever the core configuration accepts, every configuration reads identically -/
 theorem readNumber_core_ok (cfg : Cfg) (s : Bytes) (v : NumVal) (rest : Bytes)
-    (h : readNumber Cfg.core s = .ok v rest) : readNumber cfg s = .ok v rest := by
-  sorry
+    (h : readNumber Cfg.core s = .ok v rest) : readNumber cfg s = .ok v rest :=
+  (readNumber_core_ok_aux cfg s v rest h).1
 
 /-- The main theorem.  If, in the core configuration, `edn_read_value` returns a value for a
     suffix without trigger patterns, and every string in that value uses only core escapes,
@@ -40,20 +68,39 @@ theorem readValue_flag_independent (cfg : Cfg) (opts : Opts) (hreg : opts.regist
     (h : readValue { cfg := Cfg.core, opts := opts } f d dm st = .ok v st')
     (hs : Edn.Spec.coreStrings v = true) :
     ∃ v', readValue { cfg := cfg, opts := opts } f d dm st = .ok v' st' ∧
-      Edn.Spec.eraseCache v' = Edn.Spec.eraseCache v := by
-  sorry
+      Edn.Spec.eraseCache v' = Edn.Spec.eraseCache v :=
+  readValue_flag cfg opts hreg f d dm st st' v hd hn h hs
 
 /-- top level: same tree (up to cache cells) under all four flag combinations -/
 theorem read_flag_independent (cfg : Cfg) (opts : Opts) (hreg : opts.registry = none) (input : Bytes) (v : Val)
     (hn : NoTriggers input) (h : (read Cfg.core opts input).out = .value v)
     (hs : Edn.Spec.coreStrings v = true) :
     ∃ v', (read cfg opts input).out = .value v' ∧ Edn.Spec.eraseCache v' = Edn.Spec.eraseCache v := by
-  sorry
+  unfold Edn.Model.read at h ⊢
+  simp only [] at h ⊢
+  cases hr : readValue { cfg := Cfg.core, opts := opts } (readFuel input) 0 false { rest := input } with
+  | ok v0 st =>
+    rw [hr] at h
+    simp only [] at h
+    cases h
+    obtain ⟨v', hv', he⟩ := readValue_flag_independent cfg opts hreg (readFuel input) 0 false
+      { rest := input } st v (Nat.zero_le _) hn hr hs
+    rw [hv']
+    exact ⟨v', rfl, he⟩
+  | closer st =>
+    rw [hr] at h
+    simp only [] at h
+    cases h
+  | err e st =>
+    rw [hr] at h
+    simp only [] at h
+    repeat' split at h
+    all_goals cases h
 
 /-- the bytes an ordinary string denotes do not depend on the flags unless the literal uses
     one of the additional escapes (`\f`, `\b`, `\u`, `\0`..`\7`) -/
 theorem stringGet_flag_independent (cfg : Cfg) (data : Bytes) (esc : Bool) (out : Bytes)
-    (h : stringGet Cfg.core data esc = some out) : stringGet cfg data esc = some out := by
-  sorry
+    (h : stringGet Cfg.core data esc = some out) : stringGet cfg data esc = some out :=
+  stringGet_core_some cfg data esc out h
 
 end Edn.Proofs
